@@ -107,6 +107,16 @@ def constants():
     t += f"/-- key-data fields read by `parse_leaf_script` -/\ndef PSBT_IN_LEAF : List Nat := {lst(by_fn(psbt_in._KEY_DATA_FIELDS, 1, 'parse_leaf_script'))}\n"
     t += f"/-- key-data fields read by `parse_taproot_bip32` -/\ndef PSBT_IN_TAPBIP32 : List Nat := {lst(by_fn(psbt_in._KEY_DATA_FIELDS, 1, 'parse_taproot_bip32'))}\n"
     t += f"/-- key-data fields read by `parse_musig2_participant_pub_keys` -/\ndef PSBT_IN_MUSIG : List Nat := {lst(by_fn(psbt_in._KEY_DATA_FIELDS, 1, 'parse_musig2_participant_pub_keys'))}\n"
+    t += f"/-- `_V2_ONLY`: not written when serializing at version 0 -/\ndef PSBT_IN_V2_ONLY : List Nat := {lst(types_of(psbt_in._V2_ONLY, '_V2_ONLY'))}\n"
+    # the fields `finalized = bool(self.a or self.b)` reads in PsbtIn.serialize
+    ser_tree = ast.parse(textwrap.dedent(inspect.getsource(psbt_in.PsbtIn.serialize)))
+    fin_names = []
+    for n in ast.walk(ser_tree):
+        if isinstance(n, ast.Assign) and getattr(n.targets[0], "id", "") == "finalized":
+            fin_names = [a.attr for a in ast.walk(n.value) if isinstance(a, ast.Attribute)]
+    if not fin_names:
+        raise ValueError("PsbtIn.serialize: `finalized = …` not found")
+    t += f"/-- the fields whose truth makes an input finalized (`PsbtIn.serialize`) -/\ndef PSBT_IN_FINALS : List Nat := {lst(types_of(fin_names, 'finalized'))}\n"
     t += f"def PSBT_IN_FINAL_SCRIPTSIG : Nat := {psbt_in.PSBT_IN_FINAL_SCRIPTSIG[0]}\n"
     t += f"def PSBT_IN_FINAL_SCRIPTWITNESS : Nat := {psbt_in.PSBT_IN_FINAL_SCRIPTWITNESS[0]}\n"
     t += f"def PSBT_IN_NON_WITNESS_UTXO : Nat := {psbt_in.PSBT_IN_NON_WITNESS_UTXO[0]}\n"
